@@ -609,3 +609,194 @@ Example untouched_nonvacuous :
   transform true 256 256 (0, 0, 256, 256) 256 256 (1 # 16, 0, 256 + (1 # 16), 256) = Untouched /\
   transform true 256 256 (0, 0, 256, 256) 256 256 (1 # 8, 0, 256 + (1 # 8), 256) = Simple (Crop 0 0 256 256).
 Proof. split; vm_compute; reflexivity. Qed.
+
+(* ================================================================== WMTS GetFeatureInfo uses the served tile *)
+Local Open Scope Z_scope.
+
+(* For the request classes that carry origin = 'nw' (KVP GetTile, KVP GetFeatureInfo, RESTful GetTile) the bbox
+   is the rectangle the WMTS address denotes, on grids of both origins, whenever the tiled area of the level ends
+   at the top of the grid bbox (misalign = 0: what supports_access_with_origin('nw') checks before a grid is
+   offered through WMTS).  In particular GetFeatureInfo (KVP) is forwarded for the tile GetTile serves (F6). *)
+Lemma wmts_bbox_is_rectangle g r col row l :
+  r <> RestFeatureInfo \/ ul g = true ->
+  misalign g l = 0 ->
+  wmts_bbox g r col row l =
+    match limit_tile g col row l with Some _ => Some (wmts_rectangle g col row l) | None => None end.
+Proof.
+  intros Hr Hm. unfold wmts_bbox, internal_tile_coord.
+  unfold limit_tile. destruct (negb (valid_level g l)); [reflexivity|].
+  destruct (grid_size g l) as [nx ny] eqn:Egs.
+  destruct ((col <? 0) || (row <? 0) || (nx <=? col) || (ny <=? row)); [reflexivity|].
+  assert (Hflip : ul g = false ->
+                  (let '(x, y, l') := flip_tile_coord g col row l in tile_bbox g x y l') = wmts_rectangle g col row l).
+  { intros Hul. unfold flip_tile_coord, wmts_rectangle, tile_bbox, nw_grid. rewrite Egs. cbn [snd ul gx0 gy0 gx1 gy1 tw th].
+    rewrite Hul. unfold misalign in Hm. rewrite Egs in Hm. cbn [snd] in Hm.
+    unfold res_at in *. cbn [ress]. apply bbox_eq; nia. }
+  assert (Hsame : ul g = true -> tile_bbox g col row l = wmts_rectangle g col row l).
+  { intros Hul. unfold wmts_rectangle, tile_bbox, nw_grid. cbn [ul gx0 gy0 gx1 gy1 tw th]. rewrite Hul.
+    unfold res_at. cbn [ress]. reflexivity. }
+  destruct (ul g) eqn:Eul.
+  - destruct r; cbn [wmts_origin]; rewrite (Hsame eq_refl); reflexivity.
+  - destruct Hr as [Hr|Hr]; [|discriminate].
+    destruct r; cbn [wmts_origin]; try (exfalso; apply Hr; reflexivity);
+      specialize (Hflip eq_refl); destruct (flip_tile_coord g col row l) as [[x y] l'];
+      rewrite Hflip; reflexivity.
+Qed.
+
+(* The RESTful GetFeatureInfo request class has no origin: on a grid numbered from the south it forwards the
+   bbox of the vertically mirrored tile (finding reported with C16, reproduced by ./check C01). *)
+Lemma wmts_rest_featureinfo_refuted :
+  exists g col row l,
+    wf g /\ valid_level g l = true /\ misalign g l = 0 /\
+    wmts_bbox g RestTile col row l = Some (wmts_rectangle g col row l) /\
+    wmts_bbox g RestFeatureInfo col row l <> Some (wmts_rectangle g col row l).
+Proof.
+  exists (mkGrid 0 0 51200 51200 64 64 [400; 200; 100] false 23 20 4 1), 0, 0, 1.
+  split.
+  { unfold wf, pos_res. cbn [gx0 gx1 gy0 gy1 tw th ress].
+    split; [lia|]. split; [lia|]. split; [lia|]. split; [lia|]. intros r [<-|[<-|[<-|[]]]]; lia. }
+  split; [reflexivity|]. split; [reflexivity|]. split; [vm_compute; reflexivity|].
+  vm_compute. intro H. discriminate H.
+Qed.
+
+(* ================================================================== sub-extent placement, instantiated *)
+Local Open Scope Q_scope.
+
+Lemma trunc_err_eq L t : L == t -> 0 <= t -> 0 <= t - inject_Z (trunc L) /\ t - inject_Z (trunc L) < 1.
+Proof.
+  intros E Ht. assert (H : 0 <= L) by (rewrite E; exact Ht).
+  destruct (trunc_nonneg_error L H) as [A B]. split; lra.
+Qed.
+
+(* bbox_position_in_image along x: the request (b0..b2, w pixels) is cut down to the source extent (s0..s2) that
+   meets it; the sub image is requested for (n0..n2) with sw pixels and pasted at column ox.  Every pixel
+   boundary k of the sub image - ground position n0 + k/sw (n2 - n0), true output pixel position
+   (X - b0) * w/(b2 - b0) - is pasted at column ox + k: less than one output pixel before its true position,
+   never after it. *)
+Lemma sub_extent_error_x b0 b1 b2 b3 w h s0 s1 s2 s3 sw sh ox oy n0 n1 n2 n3 k :
+  b0 < b2 -> (0 < w)%Z ->
+  s0 <= s2 -> s0 <= b2 -> b0 <= s2 ->
+  bbox_position_in_image (b0, b1, b2, b3) w h (s0, s1, s2, s3) = ((sw, sh), (ox, oy), (n0, n1, n2, n3)) ->
+  (0 < sw)%Z -> (0 <= k <= sw)%Z ->
+  let c := inject_Z w / (b2 - b0) in
+  let X := n0 + inject_Z k / inject_Z sw * (n2 - n0) in
+  0 <= (X - b0) * c - inject_Z (ox + k) /\ (X - b0) * c - inject_Z (ox + k) < 1.
+Proof.
+  intros Hb Hw Hs Hsb Hbs H Hsw Hk. cbv zeta.
+  assert (Hw0 : 0 < inject_Z w) by (unfold Qlt; cbn; lia).
+  set (c := inject_Z w / (b2 - b0)).
+  assert (Hc : 0 < c) by (unfold c; apply Qlt_shift_div_l; lra).
+  assert (Hcw : (b2 - b0) * c == inject_Z w) by (unfold c; field; lra).
+  unfold bbox_position_in_image in H.
+  (* the literal pixel coordinates computed by the code *)
+  set (L0 := fst (lin_transf (b0, b1, b2, b3) (img_rect w h) (s0, 0))) in H.
+  set (L2 := fst (lin_transf (b0, b1, b2, b3) (img_rect w h) (s2, 0))) in H.
+  assert (EL0 : L0 == (s0 - b0) * c) by (unfold L0, c, lin_transf, img_rect; cbn [fst snd]; field; lra).
+  assert (EL2 : L2 == (s2 - b0) * c) by (unfold L2, c, lin_transf, img_rect; cbn [fst snd]; field; lra).
+  assert (Hlt : forall a b, Qlt_b a b = true -> a < b).
+  { intros a b E. unfold Qlt_b in E. apply negb_true_iff in E. apply Qnot_le_lt. intro Hle.
+    apply Qle_bool_iff in Hle. congruence. }
+  assert (Hge : forall a b, Qlt_b a b = false -> b <= a).
+  { intros a b E. unfold Qlt_b in E. apply negb_false_iff in E. apply Qle_bool_iff. exact E. }
+  (* facts about the two x offsets, whichever branch was taken *)
+  assert (Hx : exists o0 o2 : Z,
+             ox = o0 /\ sw = Z.abs (o2 - o0) /\ n0 <= n2 /\ b0 <= n0 /\
+             0 <= (n0 - b0) * c - inject_Z o0 /\ (n0 - b0) * c - inject_Z o0 < 1 /\
+             0 <= (n2 - b0) * c - inject_Z o2 /\ (n2 - b0) * c - inject_Z o2 < 1).
+  { destruct (Qlt_b b0 s0) eqn:E0; destruct (Qlt_b s2 b2) eqn:E2;
+      destruct (if Qlt_b b1 s1 then _ else _) as [o1 m1]; destruct (if Qlt_b s3 b3 then _ else _) as [o3 m3];
+      injection H as <- _ <- _ <- _ <- _.
+    - apply Hlt in E0, E2. exists (trunc L0), (trunc L2).
+      destruct (trunc_err_eq L0 _ EL0 ltac:(nra)) as [A0 B0]. destruct (trunc_err_eq L2 _ EL2 ltac:(nra)) as [A2 B2].
+      repeat split; try assumption; lra.
+    - apply Hlt in E0. apply Hge in E2. exists (trunc L0), w.
+      destruct (trunc_err_eq L0 _ EL0 ltac:(nra)) as [A0 B0].
+      repeat split; try assumption; try lra; rewrite Hcw; lra.
+    - apply Hge in E0. apply Hlt in E2. exists 0%Z, (trunc L2).
+      destruct (trunc_err_eq L2 _ EL2 ltac:(nra)) as [A2 B2].
+      repeat split; try assumption; try lra;
+        setoid_replace ((b0 - b0) * c - inject_Z 0) with 0 by (unfold inject_Z; ring); lra.
+    - apply Hge in E0, E2. exists 0%Z, w.
+      repeat split; try lra;
+        try (setoid_replace ((b0 - b0) * c - inject_Z 0) with 0 by (unfold inject_Z; ring); lra);
+        rewrite Hcw; lra. }
+  destruct Hx as (o0 & o2 & Eox & Esw & Hn & Hbn & A0 & B0 & A2 & B2). subst ox.
+  (* the offsets are ordered because the true positions are *)
+  assert (Hmono : (n0 - b0) * c <= (n2 - b0) * c) by nra.
+  assert (Ho : (o0 <= o2)%Z).
+  { assert (Hq : inject_Z o0 < inject_Z (o2 + 1)) by (rewrite inject_Z_plus; unfold inject_Z at 3; lra).
+    rewrite <- Zlt_Qlt in Hq. lia. }
+  assert (Esw' : sw = (o2 - o0)%Z) by lia. clear Esw. subst sw.
+  pose proof (paste_error ((n0 - b0) * c) ((n2 - b0) * c) o0 o2 k A0 B0 A2 B2 Hsw Hk) as [P1 P2].
+  assert (Hn0 : ~ inject_Z (o2 - o0) == 0) by (apply inject_Z_nonzero; exact Hsw).
+  assert (E : (n0 + inject_Z k / inject_Z (o2 - o0) * (n2 - n0) - b0) * c ==
+              (n0 - b0) * c + inject_Z k / inject_Z (o2 - o0) * ((n2 - b0) * c - (n0 - b0) * c)) by (field; exact Hn0).
+  rewrite E. split; assumption.
+Qed.
+
+(* the same along y (rows are counted from the top: offset oy is the row of the upper edge n3) *)
+Lemma sub_extent_error_y b0 b1 b2 b3 w h s0 s1 s2 s3 sw sh ox oy n0 n1 n2 n3 k :
+  b1 < b3 -> (0 < h)%Z ->
+  s1 <= s3 -> s1 <= b3 -> b1 <= s3 ->
+  bbox_position_in_image (b0, b1, b2, b3) w h (s0, s1, s2, s3) = ((sw, sh), (ox, oy), (n0, n1, n2, n3)) ->
+  (0 < sh)%Z -> (0 <= k <= sh)%Z ->
+  let c := inject_Z h / (b3 - b1) in
+  let Y := n3 - inject_Z k / inject_Z sh * (n3 - n1) in
+  0 <= (b3 - Y) * c - inject_Z (oy + k) /\ (b3 - Y) * c - inject_Z (oy + k) < 1.
+Proof.
+  intros Hb Hw Hs Hsb Hbs H Hsw Hk. cbv zeta.
+  assert (Hw0 : 0 < inject_Z h) by (unfold Qlt; cbn; lia).
+  set (c := inject_Z h / (b3 - b1)).
+  assert (Hc : 0 < c) by (unfold c; apply Qlt_shift_div_l; lra).
+  assert (Hcw : (b3 - b1) * c == inject_Z h) by (unfold c; field; lra).
+  unfold bbox_position_in_image in H.
+  set (L1 := snd (lin_transf (b0, b1, b2, b3) (img_rect w h) (0, s1))) in H.
+  set (L3 := snd (lin_transf (b0, b1, b2, b3) (img_rect w h) (0, s3))) in H.
+  assert (EL1 : L1 == (b3 - s1) * c) by (unfold L1, c, lin_transf, img_rect; cbn [fst snd]; field; lra).
+  assert (EL3 : L3 == (b3 - s3) * c) by (unfold L3, c, lin_transf, img_rect; cbn [fst snd]; field; lra).
+  assert (Hlt : forall a b, Qlt_b a b = true -> a < b).
+  { intros a b E. unfold Qlt_b in E. apply negb_true_iff in E. apply Qnot_le_lt. intro Hle.
+    apply Qle_bool_iff in Hle. congruence. }
+  assert (Hge : forall a b, Qlt_b a b = false -> b <= a).
+  { intros a b E. unfold Qlt_b in E. apply negb_false_iff in E. apply Qle_bool_iff. exact E. }
+  assert (Hy : exists o3 o1 : Z,
+             oy = o3 /\ sh = Z.abs (o1 - o3) /\ n1 <= n3 /\ n3 <= b3 /\
+             0 <= (b3 - n3) * c - inject_Z o3 /\ (b3 - n3) * c - inject_Z o3 < 1 /\
+             0 <= (b3 - n1) * c - inject_Z o1 /\ (b3 - n1) * c - inject_Z o1 < 1).
+  { destruct (if Qlt_b b0 s0 then _ else _) as [o0 m0];
+      destruct (Qlt_b b1 s1) eqn:E1;
+      destruct (if Qlt_b s2 b2 then _ else _) as [o2 m2];
+      destruct (Qlt_b s3 b3) eqn:E3;
+      injection H as _ <- _ <- _ <- _ <-.
+    - apply Hlt in E1, E3. exists (trunc L3), (trunc L1).
+      destruct (trunc_err_eq L1 _ EL1 ltac:(nra)) as [A1 B1]. destruct (trunc_err_eq L3 _ EL3 ltac:(nra)) as [A3 B3].
+      repeat split; try assumption; lra.
+    - apply Hlt in E1. apply Hge in E3. exists 0%Z, (trunc L1).
+      destruct (trunc_err_eq L1 _ EL1 ltac:(nra)) as [A1 B1].
+      repeat split; try assumption; try lra;
+        setoid_replace ((b3 - b3) * c - inject_Z 0) with 0 by (unfold inject_Z; ring); lra.
+    - apply Hge in E1. apply Hlt in E3. exists (trunc L3), h.
+      destruct (trunc_err_eq L3 _ EL3 ltac:(nra)) as [A3 B3].
+      repeat split; try assumption; try lra; rewrite Hcw; lra.
+    - apply Hge in E1, E3. exists 0%Z, h.
+      repeat split; try lra;
+        try (setoid_replace ((b3 - b3) * c - inject_Z 0) with 0 by (unfold inject_Z; ring); lra);
+        rewrite Hcw; lra. }
+  destruct Hy as (o3 & o1 & Eoy & Esh & Hn & Hbn & A3 & B3 & A1 & B1). subst oy.
+  assert (Hmono : (b3 - n3) * c <= (b3 - n1) * c) by nra.
+  assert (Ho : (o3 <= o1)%Z).
+  { assert (Hq : inject_Z o3 < inject_Z (o1 + 1)) by (rewrite inject_Z_plus; unfold inject_Z at 3; lra).
+    rewrite <- Zlt_Qlt in Hq. lia. }
+  assert (Esh' : sh = (o1 - o3)%Z) by lia. clear Esh. subst sh.
+  pose proof (paste_error ((b3 - n3) * c) ((b3 - n1) * c) o3 o1 k A3 B3 A1 B1 Hsw Hk) as [P1 P2].
+  assert (Hn0 : ~ inject_Z (o1 - o3) == 0) by (apply inject_Z_nonzero; exact Hsw).
+  assert (E : (b3 - (n3 - inject_Z k / inject_Z (o1 - o3) * (n3 - n1))) * c ==
+              (b3 - n3) * c + inject_Z k / inject_Z (o1 - o3) * ((b3 - n1) * c - (b3 - n3) * c)) by (field; exact Hn0).
+  rewrite E. split; assumption.
+Qed.
+
+(* non-vacuity: the doctest of bbox_position_in_image with an extent edge that is not on the pixel lattice *)
+Example sub_extent_error_nonvacuous :
+  bbox_position_in_image (586400, 196400, 752800, 362800) 256 256 (586400, 196400, 752800, 350000) =
+    ((256, 237)%Z, (0, 19)%Z, (586400, 196400, 752800, 350000)).
+Proof. vm_compute. reflexivity. Qed.
